@@ -931,6 +931,21 @@ report_corruption(ldb_reporter_t *report, size_t bytes, int status) {
     *report->status = status;
 }
 
+/* Without paranoid checks damaged log records are skipped, but a read
+   that failed is not damaged data: skipping it would silently drop
+   acknowledged writes that are still in the file. */
+static void
+report_corruption_lenient(ldb_reporter_t *report, size_t bytes, int status) {
+  int damaged = (status == LDB_CORRUPTION);
+
+  ldb_log(report->info_log, "%s%s: dropping %d bytes; %s",
+          damaged ? "(ignoring error) " : "",
+          report->fname, (int)bytes, ldb_strerror(status));
+
+  if (!damaged && *report->status == LDB_OK)
+    *report->status = status;
+}
+
 static int
 ldb_recover_log_file(ldb_t *db, uint64_t log_number,
                                 int last_log,
@@ -957,16 +972,18 @@ ldb_recover_log_file(ldb_t *db, uint64_t log_number,
 
   rc = ldb_seqfile_create(fname, &file);
 
-  if (rc != LDB_OK) {
-    ldb_maybe_ignore_error(db, &rc);
+  /* The log was found in the directory: failing to open it is an I/O
+     failure, not damaged data that could be skipped. */
+  if (rc != LDB_OK)
     return rc;
-  }
 
   /* Create the log reader. */
   reporter.fname = fname;
-  reporter.status = (db->options.paranoid_checks ? &rc : NULL);
+  reporter.status = &rc;
   reporter.info_log = db->options.info_log;
-  reporter.corruption = report_corruption;
+  reporter.corruption = db->options.paranoid_checks
+                      ? report_corruption
+                      : report_corruption_lenient;
 
   /* We intentionally make the log reader do checksumming even if
      paranoid_checks==0 so that corruptions cause entire commits
